@@ -63,7 +63,13 @@ func Compile(scratch string, idx int, text []byte, mtime int64) *Built {
 			dir = b.RDB2
 		}
 		os.MkdirAll(dir, 0o755)
-		if _, err := rdb.CompileToSpecificRDBVersion(in, dir, rdb.CompilationOptions{NumCPU: 1, UseV2KeySyntax: v2, UseBuilder: idx%4 == 0}); err != nil {
+		// compiler options vary with the file: the bulk builder, batches of default size, and tiny
+		// batches with several in flight (record sets then straddle batch boundaries)
+		opts := rdb.CompilationOptions{NumCPU: 1, UseV2KeySyntax: v2, UseBuilder: idx%4 == 0}
+		if idx%2 == 1 {
+			opts = rdb.CompilationOptions{NumCPU: 4, UseV2KeySyntax: v2, BatchSize: 1, BatchNumParallel: 8}
+		}
+		if _, err := rdb.CompileToSpecificRDBVersion(in, dir, opts); err != nil {
 			b.Err = "rdb: " + err.Error()
 			return b
 		}
